@@ -191,7 +191,7 @@ func run(r *ev.Run, cfg props.Cfg) {
 					n = []int{11, 12, 25, 101}[rng.Intn(4)] // key names depend on the participant count
 				}
 				app := gen.AppKind(rng.Intn(3))
-				w := mexplore.NewWorld(rng, n, rng.Intn(n), app, 1+rng.Intn(2))
+				w := mexplore.NewWellFormedWorld(rng, n, rng.Intn(n), app, 1+rng.Intn(2))
 				sc := &scenario{w: w, length: 5 + rng.Intn(36)}
 				for p := 0; p < n-1 && p < 4; p++ {
 					sc.peers = append(sc.peers, gen.WireAddrAny(rng))
@@ -205,12 +205,12 @@ func run(r *ev.Run, cfg props.Cfg) {
 				}
 				if rng.Intn(4) == 0 {
 					for k := 0; k < 3; k++ { // three, so that ids below and above the channel's are likely
-						sc.siblings = append(sc.siblings, &sibling{w: mexplore.NewWorld(rng, 2, rng.Intn(2), gen.AppKind(rng.Intn(3)), 1)})
+						sc.siblings = append(sc.siblings, &sibling{w: mexplore.NewWellFormedWorld(rng, 2, rng.Intn(2), gen.AppKind(rng.Intn(3)), 1)})
 					}
 				}
 				// every worker also runs its share of the skeleton histories
 				if idx := i*cfg.Workers + wk; idx < len(skel) {
-					sc.w = mexplore.NewWorld(rng, 2, idx%2, app, 1)
+					sc.w = mexplore.NewWellFormedWorld(rng, 2, idx%2, app, 1)
 					sc.peers = sc.peers[:1]
 					sc.seq = skel[idx]
 					r.Count("skeleton_histories", 1)
